@@ -2,7 +2,7 @@ SPECIFICATION Spec
 CONSTANTS
   RepAll = TRUE
   Mode = "mc"
-  MaxNodes = 7
+  MaxNodes = 5
   Enabled = {"Module", "Fn", "FCall", "Array", "Structural", "FieldFull", "FieldShort", "Deref", "Idx", "Mem", "Len", "Int"}
   FlagSets <- FlagSets_none
   VarForms <- VarForms_init
